@@ -62,9 +62,6 @@ pub fn parse_arguments(to_parse: &str) -> Result<Vec<Unifiable>, String> {
         }
     }
 
-    let mut has_digit     = false;
-    let mut has_non_digit = false;
-    let mut has_period    = false;
     let mut open_quote    = false;
 
     let mut num_quotes    = 0;
@@ -118,33 +115,10 @@ pub fn parse_arguments(to_parse: &str) -> Result<Vec<Unifiable>, String> {
                     }
                     num_quotes = 0;
 
-                    let term = make_term(s2, has_digit, has_non_digit, has_period)?;
+                    let term = make_term(s2)?;
                     term_list.push(term);
                     argument    = "".to_string();
-                    has_digit   = false;
-                    has_non_digit = false;
-                    has_period  = false;
                     start = i + 1;    // past comma
-                }
-                else if ch >= '0' && ch <= '9' {
-                    argument.push(ch);
-                    has_digit = true
-                }
-                else if ch == '+' || ch == '-' {
-                    argument.push(ch);
-                    // Plus or minus might be in front of a number: +7, -3.8
-                    // In this case, it is part of the number.
-                    let mut next_ch = 'x';
-                    if i < length_chrs - 1 { next_ch = chrs[i + 1]; }
-                    let mut prev_ch = ' ';
-                    if i > 0 { prev_ch = chrs[i]; }
-                    if prev_ch == ' ' && (next_ch < '0' || next_ch > '9') {
-                        has_non_digit = true;
-                    }
-                }
-                else if ch == '.' {
-                    argument.push(ch);
-                    has_period = true
                 }
                 else if ch == '\\' {  // escape character, must include next character
                     if i + 1 < length_chrs {
@@ -162,7 +136,6 @@ pub fn parse_arguments(to_parse: &str) -> Result<Vec<Unifiable>, String> {
                 }
                 else {
                     argument.push(ch);
-                    if ch > ' ' { has_non_digit = true; }
                 }
             }
             else {
@@ -185,7 +158,7 @@ pub fn parse_arguments(to_parse: &str) -> Result<Vec<Unifiable>, String> {
             None => {},
         }
 
-        let term = make_term(s2, has_digit, has_non_digit, has_period)?;
+        let term = make_term(s2)?;
         term_list.push(term);
     }
 
@@ -204,25 +177,46 @@ pub fn parse_arguments(to_parse: &str) -> Result<Vec<Unifiable>, String> {
 } // parse_arguments()
 
 
+// classify_term()
+// Classifies the characters of a term, to tell numbers from atoms.
+// A plus or minus sign in front (+7, -3.8) is part of a number.
+//
+// Arguments
+//    characters of the (trimmed) term
+// Return
+//    (has_digit, has_non_digit, has_period)
+fn classify_term(term_chars: &Vec<char>) -> (bool, bool, bool) {
+    let mut has_digit     = false;
+    let mut has_non_digit = false;
+    let mut has_period    = false;
+    for (i, ch) in term_chars.iter().enumerate() {
+        if *ch >= '0' && *ch <= '9' {
+            has_digit = true;
+        } else if *ch == '.' {
+            has_period = true;
+        } else if i == 0 && (*ch == '+' || *ch == '-') {
+            // Sign of a number.
+        } else {
+            has_non_digit = true;
+        }
+    }
+    return (has_digit, has_non_digit, has_period);
+} // classify_term()
+
 // make_term()
 // Creates a Unifiable term from the given string.
 //
 // Arguments
 //    string to parse
-//    has_digit     - boolean, true if to_parse has digit
-//    has_non_digit - boolean, true if to_parse has non-digit
-//    has_period    - boolean, true if to_parse has period
 // Return
 //    unifiable term or erro message
-fn make_term(to_parse: &str,
-             has_digit: bool,
-             has_non_digit: bool,
-             has_period: bool) -> Result<Unifiable, String> {
+fn make_term(to_parse: &str) -> Result<Unifiable, String> {
 
     let s = to_parse.trim();
 
     let term_chars = str_to_chars!(s);
     let length_term = term_chars.len();
+    let (has_digit, has_non_digit, has_period) = classify_term(&term_chars);
 
     if length_term == 0 {
         let err = mt_error("Length of term is 0", s);
@@ -361,10 +355,6 @@ pub fn parse_term(to_parse: &str) -> Result<Unifiable, String> {
 
     let mut s = to_parse.trim();
 
-    let mut has_digit     = false;
-    let mut has_non_digit = false;
-    let mut has_period    = false;
-
     let chrs = str_to_chars!(&s);
 
     // First, let's check for an arithmetic function with an infix,
@@ -389,20 +379,10 @@ pub fn parse_term(to_parse: &str) -> Result<Unifiable, String> {
         return Ok(sfunc);
     }
 
-    for ch in &chrs {
-        if *ch >= '0' && *ch <= '9' {
-            has_digit = true;
-        } else if *ch == '.' {
-            has_period = true;
-        } else {
-            has_non_digit = true;
-        }
-    }
-
     // Check for escaped characters, eg: \,
     if chrs.len() == 2 && chrs[0] == '\\' { s = &s[1..]; }
 
-    return make_term(s, has_digit, has_non_digit, has_period);
+    return make_term(s);
 
 }  // parse_term
 
